@@ -431,6 +431,68 @@ ADDED = {
            "and the ends of the float range.",
 }
 
+# extensions of the later waves (appended after ADDED)
+ADDED2 = {
+    "C01": "The caller's executor re-used for a second sweep, executor plus "
+           "num_workers through real pools (call log across processes), "
+           "equal-but-differently-typed values on one axis (refused or right), "
+           "a swept function raising StopIteration.",
+    "C02": "Keyword-only parameters with inferred names, dict cases naming an "
+           "undeclared argument, numpy-string results, the cases/grid clash "
+           "through Runner, Harvester and Crop entry points.",
+    "C03": "Grid values as one-shot generators, sub-grids as mappings or pairs "
+           "through the Runner methods, bare string cases, the functional "
+           "interface called twice with the same description objects.",
+    "C04": "Crop locations containing the crop's own words and glob "
+           "characters, an earlier sweep sown by another session with an older "
+           "function version, batch ids as iterators, in-batch pools with a "
+           "signature that is not in sown order.",
+    "C05": "Runner attributes (bool / None / differing between versions), a "
+           "session naming the other engine for the same file, integer-valued "
+           "results.",
+    "C06": "An earlier session's farmer description left on disk, per-sow "
+           "constants in an earlier round, cases x unsorted sub-grid through "
+           "sow_cases.",
+    "C07": "One constants dict handed to every sow, Crop(autoload=False) over "
+           "an existing crop, iterator-valued grid axes, the Crop factories of "
+           "Runner / Harvester / Sampler.",
+    "C09": "Crop locations containing crop words and glob characters, a "
+           "Sampler's crop reaped partially.",
+    "C10": "Both directory listing orders for the deleting workload, probe "
+           "P1g (workers grow whatever batch files exist, then a plain reap), "
+           "scenarios sown with shuffle=True.",
+    "C11": "A Sampler's crop; operations below a directory another actor "
+           "removes are scheduling points.",
+    "C12": "A long-lived handle that looked at the crop before the sow script "
+           "was run again with a larger sweep.",
+    "C13": "Coordinate labels that are false as Python values, dimension names "
+           "that are options of Dataset.sel, dict cases with varying key "
+           "order, +inf next to finite values, datasets of integers / "
+           "booleans / strings.",
+    "C14": "String labels widened through a merge, deletion by a session that "
+           "never loaded, saving through add_ds (also with the engine per "
+           "call), another file lying under the bare name.",
+    "C15": "A constant naming a sampled argument, generator objects with "
+           "their own state handed to every new Sampler, a Sampler seeded "
+           "with full_df, the engine given per call.",
+    "C16": "Batch ids as a generator, a crop name with '=', space, brackets "
+           "and a non-ASCII letter, the command line started elsewhere with "
+           "the function in a module beside the crop, scripts generated for "
+           "another crop just before.",
+    "C17": "Grids coloured by a variable, the heat map's colour scale and "
+           "colour map, grid labels on every panel, one-sided zlims, x limits "
+           "on histograms, unrelated plots drawn before the judged one.",
+    "C18": "The same plot again after other plots (styles equal, lines "
+           "visible), heat-map colours are colours and one scale serves all "
+           "panels, descending coordinates, other variables on dimensions the "
+           "plotted one lacks.",
+    "C19": "Samples as numpy scalars / 0-d / one-element arrays / one re-used "
+           "buffer, every verbosity level.",
+    "C20": "Every decimal exponent -306..306 with 13-digit values; tolerance "
+           "of a few units of float precision.",
+}
+
+
 def main():
     props = [json.loads(l) for l in open(os.path.join(VERIF, "properties.jsonl"))]
     checks, na = [], []
@@ -442,6 +504,8 @@ def main():
             cat, tech, text, note, ref = CHECKS[pid]
             if pid in ADDED:
                 text = text + " " + ADDED[pid]
+            if pid in ADDED2:
+                text = text + " Later: " + ADDED2[pid]
             checks.append({
                 "property_id": pid,
                 "quick_cmd": "%s -m xv check %s --tier quick" % (PY, pid),
